@@ -19,6 +19,7 @@ from .refmodel import FAIL, Model, RefBuild
 from .worlds import DOFILES_ABSENT, World, script_text
 
 T0 = 1_600_000_000
+MAX_WATCHDOGS = 6     # per exploration: after that many hung commands the rest of the plan is not executed
 
 
 class Project:
@@ -336,6 +337,11 @@ class Explorer:
                 res["violations"].append((history, i, sig, detail, summ))
             if not res["samples"] or len(res["samples"][0]) < len(summ):
                 res["samples"] = [summ]
+            if sum(1 for v in res["violations"] if v[2].get("kind") == "watchdog") >= MAX_WATCHDOGS:
+                # a subject that hangs makes every further history cost a full watchdog: stop, the violations are in hand
+                res["capped"] = True
+                res["stopped_early"] = "%d commands hit the watchdog" % MAX_WATCHDOGS
+                break
         res["states"] = len(keys)
         res["outcomes"] = len(res["outcomes"])
         res["wall_s"] = time.time() - t0
@@ -405,6 +411,10 @@ class Explorer:
                 res["outcomes"].add(json.dumps([summ[-1]["rc"], summ[-1]["ran"], summ[-1]["listing"]]))
                 for (i, sig, detail) in viols:
                     res["violations"].append((history, i, sig, detail, summ))
+                if sum(1 for v in res["violations"] if v[2].get("kind") == "watchdog") >= MAX_WATCHDOGS:
+                    capped = True
+                    res["stopped_early"] = "%d commands hit the watchdog" % MAX_WATCHDOGS
+                    break
                 if summ[-1]["ran"] and (not res["samples"] or len(res["samples"][0]) < len(summ)):
                     res["samples"] = [summ]   # keep a deepest history whose last command ran scripts
                 if dedup:
